@@ -91,3 +91,23 @@ Definition ex_u : string := "u".
 Definition ex_rows : list st_row :=
   [((ex_ks, ex_log), Some murmur3_class); ((ex_ks, ex_t), None); ((ex_ks, ex_log), Some cdc_class);
    ((ex_other, ex_log), Some murmur3_class)].
+
+(* ---- the three schema fetch modes of a Session (session.rs: fetch_schema_metadata,
+        fetch_full_schema_metadata -> SchemaMetadataFetchMode; fetching.rs fetch_metadata) ------
+   Disabled: no keyspace is fetched, so extract_partitioner_name finds nothing.
+   Minimal : the Table entries are built from the scylla_tables rows themselves.
+   Full    : the Table entries are built from the column rows (query_tables_schema), each taking
+             `all_partitioners.remove(..).unwrap_or_default()`; a table listed in
+             system_schema.tables that has no column rows gets an empty Table, partitioner None.
+   In Minimal and Full a table is in the metadata iff system_schema.tables lists it
+   ([in_tables], query_tables). *)
+Inductive fetch_mode := FetchDisabled | FetchMinimal | FetchFull.
+
+Definition session_partitioner (fm : fetch_mode) (scylla_tables : option (list st_row))
+    (in_tables has_columns : bool) (table_spec : option (string * string)) : partitioner :=
+  match fm with
+  | FetchDisabled => PMurmur3
+  | FetchMinimal => prepared_partitioner scylla_tables in_tables table_spec
+  | FetchFull =>
+      if has_columns then prepared_partitioner scylla_tables in_tables table_spec else PMurmur3
+  end.
